@@ -155,13 +155,26 @@ unsafe fn region_alloc() -> *mut u8 {
         Some(i) => i,
         None => {
             if r.bump >= REGION_BLOCKS {
-                unlock();
-                return std::ptr::null_mut();
+                // the address space of the region is used up (a burst of tens of thousands of rebuilds
+                // under a policy that avoids reuse): fall back to the oldest freed block rather than to
+                // the system allocator, whose addresses are not a function of the seed
+                if r.nfree == 0 {
+                    unlock();
+                    return std::ptr::null_mut();
+                }
+                let b = r.free[0] as usize;
+                for i in 0..r.nfree - 1 {
+                    r.free[i] = r.free[i + 1];
+                }
+                r.nfree -= 1;
+                r.recycled += 1;
+                b
+            } else {
+                let i = r.bump;
+                r.bump += 1;
+                r.fresh += 1;
+                i
             }
-            let i = r.bump;
-            r.bump += 1;
-            r.fresh += 1;
-            i
         }
     };
     r.live += 1;
